@@ -1,6 +1,8 @@
 // Verus unit (C13): ItsReadoutFrameValidator::{process_frame, add_fatal_lanes} and the struct (extracted): what is
 // reported for one closed readout frame, from the contracts of the frame-level checks.
 //   * the stored frame is consumed (a frame is processed at most once);
+//   * every message carries its documented code right after the offset: E701 empty frame, E72 (inner) / E73 (middle, outer)
+//     lane-count rule, E74 (inner) / E75 (middle, outer) lanes in error (extraction rule msg_rule at_code);
 //   * an empty frame: exactly one message (E701, unit v_msg_shape) led by the frame's start offset, nothing else -
 //     no ALPIDE statistics, no change of the fatal-lane list;
 //   * otherwise: the lanes that announced a fatal state in this frame are added to the running list BEFORE the
@@ -13,15 +15,22 @@ verus! {
 
 #[derive(PartialEq, Eq, Structural, Clone, Copy)]
 pub enum Layer { Inner, Middle, Outer }
-pub struct Msg { pub sortable: bool, pub at: u64 }
+pub struct Msg { pub sortable: bool, pub at: u64, pub code: u32 }
+/// an error code `E<n>` (a string literal in the code; extraction rule msg_rule at_code)
+#[derive(Clone, Copy)]
+pub struct Code { pub n: u32 }
+pub fn code_lit(n: u32) -> (r: Code) ensures r.n == n { Code { n } }
 impl Msg {
     pub fn into(self) -> (r: Msg) ensures r == self { self }
     /// appending text keeps the leading offset
     #[verifier::external_body]
-    pub fn push_str(&mut self, s: &LaneMsg) ensures final(self).sortable == old(self).sortable, final(self).at == old(self).at { unimplemented!() }
+    pub fn push_str(&mut self, s: &LaneMsg) ensures final(self).sortable == old(self).sortable, final(self).at == old(self).at, final(self).code == old(self).code { unimplemented!() }
 }
 #[verifier::external_body]
 fn opaque_msg_at(b: bool, at: u64) -> (m: Msg) ensures m.sortable == b, m.at == at { unimplemented!() }
+/// `format!("{at:#X}: [{code}] ..")`: leading offset and the error code right after it
+#[verifier::external_body]
+fn opaque_msg_code(b: bool, at: u64, code: Code) -> (m: Msg) ensures m.sortable == b, m.at == at, m.code == code.n { unimplemented!() }
 pub struct LaneMsg;
 pub struct AlpideStats { pub id: int }
 pub enum StatType { Error(Msg), AlpideStats(AlpideStats) }
@@ -133,14 +142,19 @@ impl ItsReadoutFrameValidator {
 //@EXTRACT process_frame
 }
 
+/// documented codes (README "Error codes": E7x data words / ALPIDE frames, even number = inner barrel, odd number = outer barrels):
+/// lane-count / grouping rule E72 (IB) / E73 (ML, OL); lanes in error E74 (IB) / E75 (ML, OL); frame without data words E701
+pub open spec fn lane_rule_code(l: Layer) -> u32 { if l == Layer::Inner { 72 } else { 73 } }
+pub open spec fn lane_errors_code(l: Layer) -> u32 { if l == Layer::Inner { 74 } else { 75 } }
+pub open spec fn empty_frame_code() -> u32 { 701 }
 /// what a processed non-empty frame puts on the channel, in order
 pub open spec fn expected_log(f: AlpideReadoutFrame, fatal_now: Option<Seq<u8>>, log: Seq<StatType>, base: int) -> bool {
     let a: int = if lanes_valid(f, fatal_now) { 0 } else { 1 };
     let c: int = if frame_err_lanes(f) > 0 { 1 } else { 0 };
     &&& log.len() == base + a + 1 + c
-    &&& (a == 1 ==> (log[base] matches StatType::Error(m) && m.at == f.start))
+    &&& (a == 1 ==> (log[base] matches StatType::Error(m) && m.at == f.start && m.code == lane_rule_code(f.layer)))
     &&& (log[base + a] matches StatType::AlpideStats(s) && s.id == frame_stats(f))
-    &&& (c == 1 ==> (log[base + a + 1] matches StatType::Error(m) && m.at == f.start))
+    &&& (c == 1 ==> (log[base + a + 1] matches StatType::Error(m) && m.at == f.start && m.code == lane_errors_code(f.layer)))
 }
 
 } // verus!
